@@ -62,6 +62,7 @@ def build(chk: Check) -> None:
     E.build_e3(chk)
     bounded_layer(chk)
     particle_table(chk)
+    symmetrised_selection(chk)
 
 
 def bounded_layer(chk: Check) -> None:
@@ -166,3 +167,70 @@ def particle_table(chk: Check) -> None:
         _, defaults = create_relativistic_breit_wigner_with_ff(particle, vs)
         want = {sp.Symbol(f"m_{{{ident}}}", nonnegative=True): p.mass, sp.Symbol(Rf"\Gamma_{{{ident}}}", nonnegative=True): p.width, sp.Symbol(f"d_{{{ident}}}", positive=True): 1}
         chk.struct(f"builder.parameter_names_from_identifier[{variant}]", defaults == want, FTAB, witness={str(k): v for k, v in defaults.items()}, bounded=True, replay=S.search_model)
+
+
+def symmetrised_selection(chk: Check) -> None:
+    """Selection by name reaches the nodes of identical-particle-symmetrised chains too (bounded, real objects): every two-body
+    decay of every symmetrised chain (enumerated independently, contracts/c02.identical_permutations) is a key of the selector;
+    assign(name, B) maps exactly the decays whose parent particle has that name to B; and in the formulated model no chain of
+    that resonance is left without B (the opaque-builder comparison of the whole amplitude is C02's)."""
+    import ampform
+    import sympy as sp
+    from ampform.helicity.decay import TwoBodyDecay
+
+    from contracts.c02 import OpaqueBuilder, identical_permutations
+    from vlib import models, zoo
+
+    models.quiet()
+    for name, formalism in (("d0_k_3pi_cascade", "helicity"), ("d0_k_3pi_cascade", "canonical-helicity"), ("jpsi_kk_pipi", "helicity"), ("jpsi_gamma_pi0_pi0", "helicity")):
+        tag = f"{name}/{_f(formalism)}"
+
+        def run(name=name, formalism=formalism):
+            r = zoo.reaction(name, formalism)
+            b = ampform.get_builder(r)
+            missing = []
+            all_decays = set()
+            for t in r.transitions:
+                for g in identical_permutations(t):
+                    for n in g.topology.nodes:
+                        d = TwoBodyDecay.from_transition(g, n)
+                        all_decays.add(d)
+                        if d not in b.dynamics:
+                            missing.append(f"{d.parent.particle.name} -> ids {d.children[0].id},{d.children[1].id}")
+            problems = {"decays_of_symmetrised_chains_missing_from_selector": sorted(set(missing))[:6]}
+            B = OpaqueBuilder()
+            wrong, assigned = [], []
+            for pname in r.get_intermediate_particles().names:
+                b.dynamics.assign(pname, B)
+                assigned.append(pname)
+                for d in all_decays:
+                    if d in b.dynamics and ((b.dynamics[d] is B) != (d.parent.particle.name in assigned)):
+                        wrong.append(f"after assign({pname}): {d.parent.particle.name} ids {d.children[0].id},{d.children[1].id} -> {'B' if b.dynamics[d] is B else 'not B'}")
+            problems["assign_by_name_maps_exactly_the_named_parents"] = wrong[:6]
+            model = b.formulate()
+            no_b = []
+            for cname, expr in model.components.items():
+                if cname.startswith("A_"):
+                    terms = sp.Add.make_args(sp.expand(expr)) if expr.is_Add else [expr]
+                    for term in terms:
+                        if not [x for x in term.atoms(sp.core.function.AppliedUndef) if x.func.__name__ == "B"]:
+                            no_b.append(cname[:80])
+            problems["chain_terms_without_any_lineshape"] = sorted(set(no_b))[:4]
+            return problems
+
+        def rep(_m=None, run=run, tag=tag):
+            try:
+                pr = run()
+            except Exception as e:  # noqa: BLE001
+                return {"reproduced": True, "input": tag, "observed": f"{type(e).__name__}: {e}"}
+            bad = {k: v for k, v in pr.items() if v}
+            return {"reproduced": bool(bad), "input": tag + ": assign(name, opaque builder B) for every resonance name, then formulate()", "observed": bad,
+                    "expected": "every decay of every symmetrised chain selectable by name and carrying B"}
+
+        try:
+            pr = run()
+        except Exception as e:  # noqa: BLE001
+            chk.struct(f"symmetrised_selection[{tag}].runs", False, "ampform.helicity.DynamicsSelector.__init__", witness=f"{type(e).__name__}: {e}"[:300], replay=rep, bounded=True)
+            continue
+        for k, v in pr.items():
+            chk.struct(f"symmetrised_selection[{tag}].{k}", not v, "ampform.helicity.DynamicsSelector.__init__", witness=v, replay=rep, bounded=True)
